@@ -17,6 +17,9 @@ use vcheck::engine::{ReplayFile, Violation, VERIF_DIR};
 
 pub struct FuzzPhase {
     pub violations: Vec<Violation>,
+    /// Reports of the fuzz build that the ordinary harness does not
+    /// reproduce: kept for a human, they decide nothing (exit code unchanged).
+    pub notes: Vec<String>,
     pub infra: Vec<String>,
     pub stats: Vec<Value>,
     pub executions: u64,
@@ -74,7 +77,7 @@ fn last_cov(log: &str) -> (u64, u64, u64) {
 }
 
 pub fn run(id: &str, seed: i64, exe: &Path) -> FuzzPhase {
-    let mut phase = FuzzPhase { violations: Vec::new(), infra: Vec::new(), stats: Vec::new(), executions: 0 };
+    let mut phase = FuzzPhase { violations: Vec::new(), notes: Vec::new(), infra: Vec::new(), stats: Vec::new(), executions: 0 };
     let targets = targets_for(id);
     if targets.is_empty() {
         return phase;
@@ -211,8 +214,8 @@ pub fn run(id: &str, seed: i64, exe: &Path) -> FuzzPhase {
                     let _ = std::fs::create_dir_all(&keep);
                     let kept = keep.join(e.file_name());
                     let _ = std::fs::copy(e.path(), &kept);
-                    phase.infra.push(format!(
-                        "fuzz target {} reported {} but the ordinary harness does not reproduce it (replay exit {:?}); case kept at {} (inconclusive, not a violation)",
+                    phase.notes.push(format!(
+                        "fuzz target {} (ASan build, debug assertions) reported {} but the ordinary harness does not reproduce it (replay exit {:?}); case kept at {}; not a violation",
                         j.target,
                         rf.signature,
                         confirmed,
